@@ -28,11 +28,18 @@ G.update({
     "g5": 'WHITESPACE = _{ " " | "\\t" }\nr = { "x" ~ "y" }\ns = { (" " | "\\t") ~ "z" }\nt = _{ "a" }\nu = @{ "x" ~ WHITESPACE ~ "y" }\n',
     "g4": 'r = { f ~ (";" ~ f)* }\nf = { (!";" ~ ANY)* }\ns = @{ (!^"ab" ~ ANY)* ~ ^"AB" }\nt = _{ "x" }\nu = { ("a" | !"b" ~ ANY)+ ~ &"b" }\n',
 })
-POOLS = (("g1", "g2"), ("g3", "g4"), ("g3", "g5"))
+G.update({
+    # case-insensitive literals that differ only in the case of a NON-ASCII letter (which is not ignored) or that Unicode folding would identify
+    "g6": 'r = { ^"\u00e9" ~ "x" }\ns = { ^"k\u00e9" | "!" }\nt = _{ "a" }\nu = { (^"ss" | "z")+ }\n',
+    "g7": 'r = { ^"\u00c9" ~ "x" }\ns = { ^"\u212a\u00c9" | "!" }\nt = _{ "a" }\nu = { (^"\u00df" | "z")+ }\n',
+})
+POOLS = (("g1", "g2"), ("g3", "g4"), ("g3", "g5"), ("g6", "g7"))
 PROBES = {
     "g1": [("r", "1fx\n"), ("r", "zx"), ("r", "1f"), ("s", "abZ!"), ("s", "ab1"), ("s", ""), ("u", "b"), ("u", "x"), ("u", "c")],
     "g2": [("r", "aF0\n"), ("r", "aG"), ("r", "1"), ("s", "qQ7"), ("s", "qq"), ("s", "q"), ("u", "xd"), ("u", "xc"), ("u", "")],
     "g3": [("r", "  bb"), ("r", " a"), ("r", " b"), ("s", "s ab b"), ("s", "s a"), ("s", ""), ("u", " x b"), ("u", "xab"), ("r", "a b")],
+    "g6": [("r", "\u00e9x"), ("r", "\u00c9x"), ("r", "ex"), ("s", "K\u00e9"), ("s", "k\u00c9"), ("s", "\u212a\u00e9"), ("u", "sSz"), ("u", "\u00df"), ("u", "")],
+    "g7": [("r", "\u00c9x"), ("r", "\u00e9x"), ("r", "Ex"), ("s", "\u212a\u00c9"), ("s", "k\u00c9"), ("s", "K\u00e9"), ("u", "\u00dfz"), ("u", "ss"), ("u", "")],
     "g5": [("r", "x  y"), ("s", "z"), ("s", "  z"), ("s", " z"), ("u", "xy"), ("u", "x y"), ("u", "x  y"), ("r", "x\ty"), ("r", "xy")],
     "g4": [("r", "a;b"), ("r", "a;b"), ("r", ";;"), ("s", "xaBAb"), ("s", "xa"), ("s", "Ab"), ("u", "c"), ("u", "aab"), ("f", "a;b")],
 }
@@ -425,7 +432,7 @@ def run(tier: str) -> int:
         "traces_validated_against_impl": len(histories) + executions,
         "evaluations": len(histories) + executions,
         "distinct_nontrivial": len(histories) + executions,
-        "rule": "(a) every history over 14 operations - create an unoptimised / default-optimised / custom-pass parser for g1 or g2 (further pools, explored separately: g5 with a choice-bodied WHITESPACE next to an ordinary choice with the same alternatives; g3 with implicit WHITESPACE, a rule called SKIP, skip idioms and a tagged reference, and g4 with skip idioms evaluated twice per parse and a case-insensitive stop), generate+import a module from the latest parser of a grammar, a succeeding parse, a failing parse, and a parse whose furthest failure comes from a negative predicate - up to the depth bound, "
+        "rule": "(a) every history over 14 operations - create an unoptimised / default-optimised / custom-pass parser for g1 or g2 (further pools, explored separately: g6 and g7 with case-insensitive literals that differ only in non-ASCII case; g5 with a choice-bodied WHITESPACE next to an ordinary choice with the same alternatives; g3 with implicit WHITESPACE, a rule called SKIP, skip idioms and a tagged reference, and g4 with skip idioms evaluated twice per parse and a case-insensitive stop), generate+import a module from the latest parser of a grammar, a succeeding parse, a failing parse, and a parse whose furthest failure comes from a negative predicate - up to the depth bound, "
                 "each replayed from scratch in a forked pristine process; then every object created in the history, and fresh parsers/modules of every kind created after it, are probed with 9 calls per grammar (succeeding and failing, incl. predicate failures) and each probe "
                 "(tree, or furthest_pos + expected/unexpected sets) must equal the one obtained in a process whose only history is the creation of that one parser. g1 and g2 use the same built-ins (ASCII_HEX_DIGIT, ASCII_ALPHA, NEWLINE, a Unicode property), the same rule names with different bodies and squashable choices. "
                 "states = distinct (global-state fingerprint, verdict) pairs - counted, never used to prune. "
